@@ -24,7 +24,8 @@ class Exec(ExprMixin, StmtMixin, CallMixin):
         self.repo = repo; self.contracts = contracts; self.schema = schema
         self.global_defs = global_defs or {}
         self.vcs = []; self.guards = []; self.spec_mode = False
-        self.fsolver = z3.Solver(); self.fsolver.set('timeout', 3000)
+        self.fsolver = z3.Solver(); self.fsolver.set('timeout', 400)
+        # (path pruning only: 'unknown' counts as feasible, so this solver can never make a result unsound)
         self.inline_stack = []; self.old_stack = []; self.oid_counter = [0]
         self.globals = {}; self.ext_models = {}; self.stmt_models = {}; self.iter_models = {}; self.shapes = {}
         self.module_names = {'np', 'random', 'os', 'pulp', 'datetime', 'argparse', 'sys'}
@@ -32,6 +33,8 @@ class Exec(ExprMixin, StmtMixin, CallMixin):
         self.nexec = 0
         self.qdepth = 0
         self.pure_cache = {}
+        self.qvars = []
+        self.named_facts = {}
         self.listsets = False
         for m in (models or []): m.install(self)
 
@@ -51,6 +54,7 @@ class Exec(ExprMixin, StmtMixin, CallMixin):
     def make_value(self, k, name, p):
         if isinstance(k, tuple) and k[0] == 'obj': return self.make_object(k[1], p, name, k[2] if len(k) > 2 else None)
         if isinstance(k, tuple) and k[0] == 'const': return k[1]
+        if isinstance(k, tuple) and k[0] == 'const_str': return VStr([k[1]])
         if isinstance(k, tuple) and k[0] == 'enumsym': return VEnumSym(k[1], z3.Int(name))
         if isinstance(k, tuple) and k[0] == 'dict': return VDict({VEnum(k[1], m): self.make_value(kk, name + '.' + m, p) for m, kk in k[2].items()})
         if isinstance(k, tuple) and k[0] == 'ext': return VExt(k[1])
@@ -97,15 +101,15 @@ class Exec(ExprMixin, StmtMixin, CallMixin):
         if n in ('forall', 'exists'):
             if not isinstance(a[0], ast.Name): raise StaleContract('quantifier variable')
             self.qdepth += 1
-            j = z3.Int('%s?%d' % (a[0].id, self.qdepth)) if False else fresh(a[0].id, I)
-            q = p.fork(); q.env[a[0].id] = VInt(j)
+            j = fresh(a[0].id, I)
+            q = p.fork(); q.env[a[0].id] = VInt(j); self.qvars.append(j)
             try:
                 if len(a) == 4:
                     lo = self.ev(a[1], p).t; hi = self.ev(a[2], p).t; rng = z3.And(lo <= j, j < hi); body = self.truthy(self.ev(a[3], q))
                 elif len(a) == 2:
                     rng = z3.BoolVal(True); body = self.truthy(self.ev(a[1], q))
                 else: raise StaleContract('quantifier arity')
-            finally: self.qdepth -= 1
+            finally: self.qdepth -= 1; self.qvars.pop()
             if n == 'forall': return VBool(z3.ForAll([j], z3.Implies(rng, body)))
             return VBool(z3.Exists([j], z3.And(rng, body)))
         if n == 'implies':
@@ -156,10 +160,12 @@ class Exec(ExprMixin, StmtMixin, CallMixin):
             if not isinstance(a[0], ast.Name): raise StaleContract('Sum variable')
             j = fresh(a[0].id, I); q = p.fork(); q.env[a[0].id] = VInt(j)
             hi = self.ev(a[1], p).t
-            b = self.ev(a[2], q)
+            self.qvars.append(j)
+            try: b = self.ev(a[2], q)
+            finally: self.qvars.pop()
             def lam(t):      # Lambda j. a[j]  is the array a itself (keeps terms small and syntactically equal)
                 if z3.is_select(t) and t.arg(1).eq(j) and not contains(t.arg(0), j): return t.arg(0)
-                return z3.Lambda([j], t)
+                return self.lemmas.named_array(j, t, [v for v in self.qvars if not v.eq(j) and contains(t, v)])
             if n == 'Count': return VInt(self.lemmas.SumA(lam(z3.If(self.truthy(b), z3.IntVal(1), z3.IntVal(0))), hi))
             if n == 'SumR': return VReal(self.lemmas.SumR(lam(self.toreal(b)), hi))
             t, r = self.num(b, 'sum', p, 0)
@@ -235,6 +241,7 @@ class Exec(ExprMixin, StmtMixin, CallMixin):
                 finally: self.old_stack.pop()
             else:
                 raise Undecided('%s escapes the function' % st)
+        self.add_axioms()
         info = dict(function=key, file=fn.path, lines=list(fn.lines), sha256=fn.sha256, stmts_executed=self.nexec,
                     paths=len(res), vcs=len(self.vcs))
         return self.vcs, info
@@ -285,7 +292,7 @@ def _verify_lemma(self, name, L):
     class _F:      # pseudo function record
         key = 'lemma:' + name; qualname = name; module = 'lemma'; loops = {}; loop_nodes = []; lines = (0, 0); path = 'contracts'
         sha256 = ''
-    self.fn = _F(); self.contract = L; self.vcs = []
+    self.fn = _F(); self.contract = L; self.vcs = []; self.named_facts = {}
     self.defs = dict(self.global_defs); self.defs.update(L.get('defs', {}))
     p = Path()
     for n, k in L.get('vars', {}).items(): p.env[n] = self.make_value(k, n, p)
@@ -342,8 +349,15 @@ def _verify_lemma(self, name, L):
         else:
             nm, src = g[0], g[1]
             t = self.spec_eval(src, p)
-            self.vcs.append(VC('goal/' + nm, list(p.pc), t, 'lemma', 0, self.fn.key))
-            if len(g) > 2 and g[2] == 'then-assume': p.assume(t)      # a chain: later goals may use earlier ones
+            hyps = list(p.pc)
+            if len(g) > 3:        # prove from the named facts only (keeps the query small and stable)
+                missing = [f for f in g[3] if f not in self.named_facts]
+                if missing: raise StaleContract('lemma %s: unknown fact %s' % (name, missing))
+                hyps = [self.named_facts[f] for f in g[3]]
+            self.vcs.append(VC('goal/' + nm, hyps, t, 'lemma', 0, self.fn.key))
+            if len(g) > 2 and g[2] == 'then-assume':      # a chain: later goals may use earlier ones
+                p.assume(t); self.named_facts[nm] = t
+    self.add_axioms()
     return self.vcs, dict(function='lemma:' + name, file='contracts', lines=[0, 0], sha256='', stmts_executed=0, paths=1, vcs=len(self.vcs))
 
 
@@ -373,7 +387,9 @@ def _use_lemma(self, name, binding, p, where, conditional=False):
         guard = (lambda t: z3.Implies(z3.And(*hyps), t) if hyps else t) if conditional else (lambda t: t)
         if 'induct' in L: p.assume(guard(self.induct_fact(L, q)))
         for g in L.get('goals', []):
-            if isinstance(g, tuple) and g[0] not in ('assume', 'requires', 'ensures') and isinstance(g[1], str): p.assume(guard(self.spec_eval(g[1], q)))
+            if isinstance(g, tuple) and g[0] not in ('assume', 'requires', 'ensures') and isinstance(g[1], str):
+                t = guard(self.spec_eval(g[1], q)); p.assume(t)
+                self.named_facts[name + '/' + g[0]] = t
     finally:
         self.defs = saved
 
@@ -383,6 +399,23 @@ def _apply_lemmas(self, anchor, p):
         self.use_lemma(u[0], u[1], p, anchor, conditional=(len(u) > 2 and u[2] == 'if-applicable'))
 
 
+def _add_axioms(self):
+    """Definitional axioms (sum unfolding with one level of fuel, named arrays): added to the VCs that mention them."""
+    for v in self.vcs:
+        syms = set(self.lemmas.symbols(v.goal))
+        for h in v.hyps: syms |= self.lemmas.symbols(h)
+        ax = self.lemmas.axioms_for(syms)
+        # axioms may mention further named arrays (nested sums): close under dependencies
+        for _ in range(3):
+            more = set()
+            for a in ax: more |= self.lemmas.symbols(a)
+            if more <= syms: break
+            syms |= more; ax = self.lemmas.axioms_for(syms)
+        v.hyps.extend(ax)
+        v.quant = '<q>' in syms or bool(ax)
+
+
+Exec.add_axioms = _add_axioms
 Exec.verify_lemma = _verify_lemma
 Exec.induct_fact = _induct_fact
 Exec.use_lemma = _use_lemma
